@@ -137,6 +137,14 @@ def build(timeout=3000):
     return Build(ok, log, failed, time.time() - t0)
 
 
+def tables_unmodelled():
+    """the entries harness/tables.py could not map, as listed at the end of Gen/Tables.v"""
+    try:
+        return re.findall(r'\(\* UNMODELLED: (.*?) \*\)', open(os.path.join(COQ, 'Gen', 'Tables.v')).read())
+    except OSError:
+        return ['Gen/Tables.v missing']
+
+
 def coqc_capture(rel, timeout=900):
     """Compile one project file directly and return its stdout (Print Assumptions output)."""
     r = subprocess.run(['coqc', '-R', '.', 'PV', rel], cwd=COQ, stdout=subprocess.PIPE,
@@ -403,6 +411,11 @@ def run_property(pid, tier, replay=None):
     proof_ok = bool(thms) and bld.vo_ok(props_rel)
     forb = forbidden_vernacular()
     assumptions = {'closed': 0, 'axioms': []}
+    # the regenerated tables must hold nothing the model does not know (Proofs/TablesModelled.v); otherwise the
+    # theorems are about tables that are not the code's
+    tables_ok = bld.vo_ok('Proofs/TablesModelled.v')
+    if not tables_ok:
+        proof_ok = False
     if proof_ok:
         rc, out = coqc_capture(props_rel)
         assumptions = parse_assumptions(out)
@@ -496,7 +509,9 @@ def run_property(pid, tier, replay=None):
                 what.append('no theorems found for %s' % pid)
             elif not proof_ok:
                 what.append('proof obligation no longer checks: %s (failed files: %s)' % (
-                    props_rel, ', '.join(bld.failed_files) or '-'))
+                    props_rel if tables_ok else 'Proofs/TablesModelled.v tables_fully_modelled (the dispatch tables of the '
+                    'code hold entries the model does not know: %s)' % '; '.join(tables_unmodelled()[:12]),
+                    ', '.join(bld.failed_files) or '-'))
                 if forb: what.append('forbidden vernacular: %r' % forb[:5])
             if harness_error:
                 what.append('model could not be evaluated: ' + harness_error[:1500])
